@@ -234,6 +234,9 @@ func init() {
 							q.p = items[r.Intn(len(items))].Point()
 						}
 						q.k = []int{1, 3, 16}[r.Intn(3)]
+						if r.P(1, 60) {
+							q.k = 1 << 17 // "everything", said with a huge k
+						}
 						q.maxDist = -1
 						if r.P(1, 3) {
 							// (the last four reach beyond the whole tree: a limit that excludes nothing)
@@ -242,6 +245,9 @@ func init() {
 						q.filter = r.Intn(len(c19filters))
 						w := []float64{0, 1, 30, 400}[r.Intn(4)]
 						q.box = orb.Bound{Min: orb.Point{q.p[0] - w, q.p[1] - w}, Max: orb.Point{q.p[0] + w, q.p[1] + w}}
+						if r.P(1, 12) {
+							q.box = b // exactly the tree's own bound
+						}
 						q.useBuf = r.Intn(3)
 						if q.maxDist >= 0 && r.Bool() {
 							q.limits = []float64{q.maxDist}
@@ -352,6 +358,13 @@ func init() {
 									}
 									for i := 0; ok && i < len(res); i++ {
 										ok = res[i] == want[i]
+									}
+									if ok && qs[qi].useBuf == 0 && len(res) > 1 {
+										// an answer given without a buffer belongs to the caller: reorder it in place; nobody else's
+										// answer may notice
+										for i, j := 0, len(res)-1; i < j; i, j = i+1, j-1 {
+											res[i], res[j] = res[j], res[i]
+										}
 									}
 									if !ok {
 										if atomic.AddInt64(&mismatches, 1) == 1 {
